@@ -664,6 +664,12 @@ void DocumentBuilder::prechart_set(const bool pch) { currentTemplate->has_precha
 
 void DocumentBuilder::decl_dynamic_template(const std::string& name)
 {
+    if (currentTemplate != nullptr && frames.top() == currentTemplate->frame) {
+        // among the local declarations of a template: the locations and edges that follow belong to that template
+        handle_error(TypeException{"$Dynamic_templates_can_only_be_declared_globally"});
+        params = frame_t::create();  // reset params
+        return;
+    }
     // Should be null, but error recovery can result in proc_end not being called
     currentTemplate = nullptr;
     /* check if name already exists */
